@@ -77,7 +77,7 @@ def _child(mod, shard, outfile):
     import faulthandler
 
     try:
-        faulthandler.dump_traceback_later(shard.get("wall_limit_s", 900) + 30, exit=True)
+        faulthandler.dump_traceback_later(3 * shard.get("wall_limit_s", 900) + 60, exit=True)
         # the code under test prints diagnostics (e.g. printStack before InvalidEngineState): keep them off our stdout
         devnull = os.open(os.devnull, os.O_WRONLY)
         os.dup2(devnull, 1)
@@ -134,7 +134,7 @@ def run_pool(mod, shards, workers, deadline):
                 else:
                     results[idx] = {"shard": shards[idx].get("name"),
                                     "harness_error": "shard died without result, status=%r" % (status,)}
-            elif time.time() - start > shards[idx].get("wall_limit_s", 900) + 60:
+            elif time.time() - start > 3 * shards[idx].get("wall_limit_s", 900) + 120:
                 try:
                     os.kill(pid, 9)
                 except OSError:
